@@ -337,6 +337,8 @@ def _call(ctx: Ctx, cls: str, meth: str, args: dict, oracle: Any, flags: dict, k
     p.family = None
     it = Interp(p, flags, oracle)
     it.concrete = [cls]
+    if 'padding[0] + padding[1] > 0' in flags and not hasattr(it, 'num_facts'):
+        it.num_facts = {'padding[0]': 'P', 'padding[1]': 'P'} if flags['padding[0] + padding[1] > 0'] else {'padding[0]': 0, 'padding[1]': 0}
     f = p.lookup_method(cls, meth, kind)
     if f is None:
         raise AnalysisIncomplete(f'{cls}.{meth} not found')
@@ -452,6 +454,31 @@ def rule_patch_geom(ctx: Ctx) -> None:
         if padded:
             asym = [ev for ev in it.events if ev[0] == 'pad-asym']
             ctx.check(not asym, 'TT-GEOM', f, 'zero padding is symmetric per dimension', 'pad symmetry', f'asymmetric padding {[(str(e[3])) for e in asym]}', f.node)
+    # padding along one axis only: whatever test guards the padding is evaluated for (padding[0], padding[1]) in
+    # {0, positive}^2; an axis with positive padding must be padded (padding by zero is the identity)
+    f = p.lookup_method(CONV, '_extract_patches')
+    for p0, p1 in ((0, 'P'), ('P', 0)):
+        p.family = None
+        it = Interp(p, {k: v for k, v in helper_flags(True, True).items() if k != 'padding[0] + padding[1] > 0'}, orc)
+        it.concrete = [CONV]
+        it.num_facts = {'padding[0]': p0, 'padding[1]': p1}
+        pt, _fin = it.call_function(f, {'self': ObjV('self'), 'x': TV(('B', 'C', 'H', 'W'), XU, 'factor')}, {'__class__': ObjV(CONV)})
+        _incomplete(it, f'_extract_patches padding=({p0},{p1})')
+
+        def unpad0(a: Any) -> Any:
+            if isinstance(a, tuple) and a and a[0] == 'pad' and ((a[2] == 'padding[0]' and p0 == 0) or (a[2] == 'padding[1]' and p1 == 0)):
+                return unpad0(a[1])
+            if isinstance(a, tuple):
+                return tuple(unpad0(x) for x in a)
+            return a
+        Hx = ('pad', 'H', 'padding[0]') if p0 == 'P' else 'H'
+        Wx = ('pad', 'W', 'padding[1]') if p1 == 'P' else 'W'
+        want = ('B', ('win', Hx, 'kernel_size[0]', 'stride[0]'), ('win', Wx, 'kernel_size[1]', 'stride[1]'),
+                ('prod', 'C', ('ker', Hx, 'kernel_size[0]'), ('ker', Wx, 'kernel_size[1]')))
+        got = unpad0(pt.axes) if isinstance(pt, TV) else None
+        ctx.check(got == want, 'TT-GEOM', f, f'[padding[0]={p0}, padding[1]={p1}] patches {pt}', f'_extract_patches padding=({p0},{p1})',
+                  f'with padding[0]={"0" if p0 == 0 else ">0"} and padding[1]={"0" if p1 == 0 else ">0"} _extract_patches yields {pt}; specified {T.axes_str(want)}: '
+                  'an axis with non-zero padding must be zero-padded before it is unfolded, whatever the padding of the other axis', f.node)
 
 
 def _strip_geom(axes: tuple) -> Any:
